@@ -197,6 +197,19 @@ var c14muts = []c14mut{
 		}
 	}},
 	{"poke", func(s *influxql.SelectStatement) { n := 0; poke(reflect.ValueOf(s), 0, &n) }},
+	// not a rewrite, but a query that keeps a memo on the statement
+	{"GroupByInterval+Offset", func(s *influxql.SelectStatement) { _, _ = s.GroupByInterval(); _, _ = s.GroupByOffset() }},
+}
+
+// c14Obs is what an observer sees of a statement: its structure and the
+// answers of the queries that keep memos on it.
+func c14Obs(s *influxql.SelectStatement) string {
+	out := dumpOf(s)
+	mon.Try(func() {
+		d, err := s.GroupByInterval()
+		out += fmt.Sprint("|interval=", d, err)
+	})
+	return out
 }
 
 func c14One(c *Ctx, text string, idx int, local map[string]int64) {
@@ -346,12 +359,12 @@ func c14One(c *Ctx, text string, idx int, local map[string]int64) {
 			if sched == "original-only" || (sched == "interleaved" && rg.Bool()) {
 				victim, watched, side = a, b, "original"
 			}
-			snap := dumpOf(watched)
+			snap := c14Obs(watched)
 			m := c14muts[rg.Intn(len(c14muts))]
 			hist = append(hist, side+":"+m.name)
 			mon.Try(func() { m.run(victim) })
 			local["history."+m.name]++
-			if now := dumpOf(watched); now != snap {
+			if now := c14Obs(watched); now != snap {
 				r.Violation("mutation-visible-on-other-side", det(fmt.Sprintf("after %v (last step applied to the %s), the other side changed: %s", hist, side, astx.FirstDiff(snap, now))))
 				return
 			}
